@@ -692,8 +692,7 @@ class C01(Prop):
         if rng.random() < 0.5:
             g.arr()
         n_nodes = rng.randint(3, 22)
-        kinds = [("unary", 3), ("binary", 6), ("reduce", 2), ("view", 4), ("adv", 1), ("matmul", 1), ("einsum", 1), ("where", 1), ("clip", 0 if cfg["exact"] else 1),
-                 ("join", 1), ("seq", 1), ("cumsum", 1), ("power", 1)]
+        kinds = self.kinds(cfg, rng)
         made = 0
         tries = 0
         while made < n_nodes and tries < n_nodes * 4:
@@ -768,10 +767,18 @@ class C01(Prop):
                             evs.insert(i + 1, {"k": "drop", "kind": "T", "h": h, "cycle": False})
             evs.append({"k": "sched", "j": j, "off": j * OFF})
             evs.append({"k": "backward", "tgt": L + j * OFF})
+            evs.extend(self.post_backward(rng, [e["out"] for e in evs if e["k"] in ("leaf", "op") and "out" in e]))
             evs.append({"k": "sched_end", "j": j, "off": j * OFF})
             events.extend(evs)
         add_faults(g, events, rng, cfg)
         return {"prop": self.id, "cfg": cfg, "events": events}
+
+    def kinds(self, cfg, rng):
+        return [("unary", 3), ("binary", 6), ("reduce", 2), ("view", 4), ("adv", 1), ("matmul", 1), ("einsum", 1), ("where", 1), ("clip", 0 if cfg["exact"] else 1),
+                ("join", 1), ("seq", 1), ("cumsum", 1), ("power", 1)]
+
+    def post_backward(self, rng, handles):
+        return []
 
     def _reschedule(self, evs, rng):
         # random linear extension
@@ -809,3 +816,151 @@ class C01(Prop):
 
 
 register(C01())
+
+
+class C06(C01):
+    id = "C06"
+    title = "a view's gradient is the view of its base's gradient"
+    rule = (
+        "view-heavy dataflow DAGs (chains of slices/reshapes/transposes/diagonals/new axes, views of views, consumers of base and views in "
+        "any combination) under 2-4 contribution schedules, followed by a read schedule of .grad accesses interleaved with drops and gc; "
+        "non-trivial when at least one view's gradient was compared with the view of its base's gradient; distinct by (event kind, outcome)"
+    )
+    expected_probes = ["c06.view_grad_ok", "c06.base_grad_noncontiguous"]
+
+    def generate(self, rng):
+        h = super().generate(rng)
+        h["prop"] = self.id
+        return h
+
+    def kinds(self, cfg, rng):
+        return [("unary", 2), ("binary", 5), ("reduce", 2), ("view", rng.choice([8, 12])), ("adv", 0.5), ("matmul", 1), ("einsum", 1.5), ("where", 0.5), ("join", 0.5), ("seq", 0.5)]
+
+    def post_backward(self, rng, handles):
+        """the read schedule: .grad reads in random order and repetition, interleaved with drops and gc"""
+        evs = []
+        hs = list(handles)
+        for _ in range(rng.randint(1, 5)):
+            c = rng.random()
+            if c < 0.6 and hs:
+                evs.append({"k": "readgrad", "hs": rng.sample(hs, rng.randint(1, min(4, len(hs))))})
+            elif c < 0.8 and hs:
+                h = hs.pop(rng.randrange(len(hs)))
+                evs.append({"k": "drop", "kind": "T", "h": h, "cycle": rng.random() < 0.3})
+            else:
+                evs.append({"k": "gc"})
+        evs.append({"k": "readgrad", "hs": hs})
+        return evs
+
+    def observers(self, hist):
+        return [O.ViewGradOracle()]
+
+    def nontrivial(self, world):
+        return world.probes.get("c06.view_grad_ok", 0) > 0
+
+
+register(C06())
+
+
+class C09(Prop):
+    id = "C09"
+    title = "backprop through a partially cleared graph fails loudly"
+    rule = (
+        "a shared trunk (leaves, intermediates, views) with 2-4 terminals; a middle section of backward/clear_graph on some terminals, "
+        "in-place updates on shared tensors and views, re-use of shared tensors, null_grad; then backward on a remaining terminal.  "
+        "non-trivial when a backward was attempted on a terminal whose recorded graph had been partially cleared; distinct by (event kind, outcome)"
+    )
+    expected_probes = ["c09.tainted_backward", "c09.invalid_backprop", "c09.tainted_backward_succeeded"]
+
+    def generate(self, rng):
+        cfg = {
+            "lane": "plain",
+            "id_policy": "never",
+            "max_elems": rng.choice([4, 8]),
+            "max_ndim": rng.choice([1, 2]),
+            "dtypes": ["f8"],
+            "tape": True,
+            "exact": rng.random() < 0.6,
+        }
+        g = Gen(rng, cfg)
+        for _ in range(rng.randint(1, 3)):
+            g.leaf(shape=g.rand_shape(min_ndim=1))
+        trunk = list(g.float_tensors())
+        for _ in range(rng.randint(1, 6)):
+            src = g.choice(trunk)
+            k = g.wchoice([("unary", 2), ("binary", 4), ("view", 3), ("reduce", 1)])
+            h = g.op_view(src) if k == "view" else getattr(g, "op_" + k)(src) if k != "binary" else g.op_binary(src, allow_arrays=False)
+            if h is not None:
+                trunk.append(h)
+        heads = []
+
+        def new_head():
+            src = [h for h in trunk if h in g.t]
+            if not src:
+                return None
+            k = rng.randint(1, min(3, len(src)))
+            picks = rng.sample(src, k)
+            if rng.random() < 0.5:
+                # an op on a trunk tensor first (a consumer recorded on the shared tensor)
+                h2 = g.op_binary(picks[0], allow_arrays=False) or g.op_unary(picks[0])
+                if h2 is not None:
+                    picks[0] = h2
+            L = g.new_h()
+            terms = [[p, float(rng.randint(1, 3))] for p in picks]
+            g.emit({"k": "terminal", "out": L, "terms": terms})
+            from .gen import G
+
+            g.fam_id += 1
+            g.t[L] = G(np.asarray(0.0), False, g.epoch, g.fam_id, depth=50)
+            heads.append(L)
+            return L
+
+        for _ in range(rng.randint(2, 4)):
+            new_head()
+        if not heads:
+            return {"prop": self.id, "cfg": cfg, "events": g.ev}
+        final = heads.pop(rng.randrange(len(heads)))
+        for _ in range(rng.randint(1, 8)):
+            k = g.wchoice([("backward", 4), ("clear", 2), ("setitem", 3), ("iop", 2), ("ufunc", 2), ("reuse", 4), ("null_grad", 1), ("head", 1), ("view", 1)])
+            live_trunk = [h for h in trunk if h in g.t and g.t[h].val.dtype.kind == "f"]
+            if k == "backward" and heads:
+                g.backward(heads.pop(rng.randrange(len(heads))))
+            elif k == "clear":
+                tgt = g.choice(heads + live_trunk) if heads or live_trunk else None
+                if tgt is not None:
+                    g.clear(tgt)
+                    if tgt in heads:
+                        heads.remove(tgt)
+            elif k == "setitem" and live_trunk:
+                g.inplace_setitem(g.choice(live_trunk), adv_p=0.2)
+            elif k == "iop" and live_trunk:
+                g.inplace_iop(g.choice(live_trunk))
+            elif k == "ufunc" and live_trunk:
+                g.inplace_ufunc(g.choice(live_trunk))
+            elif k == "reuse" and live_trunk:
+                src = g.choice(live_trunk)
+                h = g.op_binary(src, allow_arrays=False) if rng.random() < 0.7 else g.op_unary(src)
+                if h is not None and rng.random() < 0.4:
+                    trunk.append(h)
+            elif k == "null_grad" and live_trunk:
+                g.emit({"k": "null_grad", "tgt": g.choice(live_trunk)})
+            elif k == "head":
+                new_head()
+            elif k == "view" and live_trunk:
+                h = g.op_view(g.choice(live_trunk))
+                if h is not None:
+                    trunk.append(h)
+        g.backward(final)
+        for L in heads:
+            if rng.random() < 0.5:
+                g.backward(L)
+        return {"prop": self.id, "cfg": cfg, "events": g.ev}
+
+    def observers(self, hist):
+        return [O.PartialClearOracle()]
+
+    def nontrivial(self, world):
+        return world.probes.get("c09.tainted_backward", 0) > 0
+
+
+register(C09())
